@@ -16,6 +16,7 @@ import (
 	"runtime"
 	"sort"
 	"strings"
+	"sync"
 	"time"
 
 	"github.com/semafind/semadb/diskstore"
@@ -34,10 +35,11 @@ import (
 
 // Program is one exploration unit.
 type Program struct {
-	Searchers []string `json:"searchers"` // vamana | vamana-filter | text | string
-	Writer    string   `json:"writer"`    // none | ins2 | updvec | del1 | del-ins
-	Start     string   `json:"start"`     // cold | warm | partial
-	GetEvery  int      `json:"getEvery"`  // every n-th Get of a read transaction is a scheduling point
+	Searchers []string `json:"searchers"`      // vamana | vamana-filter | text | string
+	Writer    string   `json:"writer"`         // none | ins2 | updvec | del1 | del-ins
+	Start     string   `json:"start"`          // cold | warm | partial
+	GetEvery  int      `json:"getEvery"`       // every n-th Get of a read transaction is a scheduling point
+	Free      bool     `json:"free,omitempty"` // race pass: plain goroutines under the race detector, no scheduler
 }
 
 const prop = "vec"
@@ -161,7 +163,10 @@ func run(raw json.RawMessage, prefix []string) (*vsched.Trace, []schedlib.V, str
 	path := filepath.Join(dir, "sharddb.bbolt")
 	copyFile(baseFile, path)
 	var viols []schedlib.V
+	var hmu sync.Mutex // harness bookkeeping (uncontended under the scheduler; needed by the free-running race pass)
 	fail := func(sig, format string, a ...any) {
+		hmu.Lock()
+		defer hmu.Unlock()
 		if len(viols) < 8 {
 			viols = append(viols, schedlib.V{Sig: sig, Detail: fmt.Sprintf(format, a...)})
 		}
@@ -216,7 +221,9 @@ func run(raw json.RawMessage, prefix []string) (*vsched.Trace, []schedlib.V, str
 				if pt.Failed {
 					vsched.Point("write-tx rolled back")
 				} else {
+					hmu.Lock()
 					commits++
+					hmu.Unlock()
 					vsched.Point("write-tx committed")
 				}
 			}
@@ -235,15 +242,28 @@ func run(raw json.RawMessage, prefix []string) (*vsched.Trace, []schedlib.V, str
 	}
 	var outcome []string
 	batches := writerBatches(p.Writer)
-	tr := vsched.Run(vsched.Options{MaxSteps: 1500, Patience: 5 * time.Second, Teardown: true}, prefix, func(sc *vsched.Sched) {
+	var freeWG sync.WaitGroup
+	spawn := func(sc *vsched.Sched, name string, fn func()) {
+		if p.Free {
+			freeWG.Add(1)
+			go func() { defer freeWG.Done(); fn() }()
+			return
+		}
+		sc.Go(name, fn)
+	}
+	body := func(sc *vsched.Sched) {
 		for i, kind := range p.Searchers {
 			i, kind := i, kind
 			name := fmt.Sprintf("S%d", i+1)
-			sc.Go(name, func() {
+			spawn(sc, name, func() {
 				vsched.Point("search-begin")
+				hmu.Lock()
 				from := commits
+				hmu.Unlock()
 				res, err := s.SearchPoints(models.SearchRequest{Query: query(kind), Select: []string{"*"}, Limit: 10})
+				hmu.Lock()
 				to := commits
+				hmu.Unlock()
 				if err != nil {
 					msg := err.Error()
 					if i := strings.LastIndex(msg, ": "); i >= 0 {
@@ -255,7 +275,9 @@ func run(raw json.RawMessage, prefix []string) (*vsched.Trace, []schedlib.V, str
 						msg += ":no-commit-during-the-search"
 					}
 					fail("search-failed-spuriously:"+msg, "%s (%s) running concurrently failed: %v (commits finished before / after the search: %d / %d)", name, kind, err, from, to)
+					hmu.Lock()
 					outcome = append(outcome, name+":error")
+					hmu.Unlock()
 					return
 				}
 				// every returned point was committed-live at some moment during the search
@@ -271,6 +293,7 @@ func run(raw json.RawMessage, prefix []string) (*vsched.Trace, []schedlib.V, str
 					d, _ := sl.ResultDoc(r)
 					d = sl.Canon(d)
 					ok := false
+					hmu.Lock()
 					for t := from; t <= to && t < len(states); t++ {
 						if want, live := states[t][id]; live && sl.DocEqual(want, d) {
 							ok = true
@@ -282,16 +305,19 @@ func run(raw json.RawMessage, prefix []string) (*vsched.Trace, []schedlib.V, str
 							ok = true
 						}
 					}
+					hmu.Unlock()
 					if !ok {
 						fail("search-returned-uncommitted-or-dead-point", "%s (%s) returned point %d with document %s, which is in none of the committed states %d..%d that existed during the search", name, kind, id, sl.DocString(d), from, to)
 					}
 				}
 				sort.Ints(ids)
+				hmu.Lock()
 				outcome = append(outcome, fmt.Sprintf("%s:%v@%d-%d", name, ids, from, to))
+				hmu.Unlock()
 			})
 		}
 		if len(batches) > 0 {
-			sc.Go("W", func() {
+			spawn(sc, "W", func() {
 				in := &sl.Inst{Shard: s}
 				for _, op := range batches {
 					vsched.Point("write-begin " + op.Name)
@@ -305,9 +331,11 @@ func run(raw json.RawMessage, prefix []string) (*vsched.Trace, []schedlib.V, str
 						}
 						continue // nothing was committed: the model and the committed states stay as they are
 					}
+					hmu.Lock()
 					exp := model.Apply(op)
 					// the state this batch commits, recorded before it can become visible
 					states = append(states, snap())
+					hmu.Unlock()
 					got := in.ApplyImpl(op)
 					if sig, detail := sl.CompareResult(op, exp, got); sig != "" {
 						fail("writer:"+sig, "%s", detail)
@@ -315,7 +343,16 @@ func run(raw json.RawMessage, prefix []string) (*vsched.Trace, []schedlib.V, str
 				}
 			})
 		}
-	})
+	}
+	var tr *vsched.Trace
+	if p.Free {
+		// race pass: the same thread bodies as plain goroutines, no controller
+		body(nil)
+		freeWG.Wait()
+		tr = &vsched.Trace{}
+	} else {
+		tr = vsched.Run(vsched.Options{MaxSteps: 1500, Patience: 5 * time.Second, Teardown: true}, prefix, body)
+	}
 	late := proxy.TakeLate()
 	if len(late) > 0 {
 		// a search that failed in the same execution failed because the proxy
@@ -413,6 +450,34 @@ func master(cfg *harness.Config, rep *harness.Report) {
 		}
 		return
 	}
+	if cfg.Extra["race"] != "" {
+		cfg.NoEvidence = true
+		var progs []any
+		n := 0
+		for _, start := range []string{"cold", "warm"} {
+			for _, w := range []string{"none", "ins2", "updvec", "del-ins", "ins2-storage-fault"} {
+				for _, ss := range [][]string{{"vamana-small", "vamana", "vamana-filter"}, {"vamana", "text", "string"}} {
+					n++
+					for r := 0; r < 25; r++ {
+						progs = append(progs, Program{Searchers: ss, Writer: w, Start: start, GetEvery: 8, Free: true})
+					}
+				}
+			}
+		}
+		old, _ := filepath.Glob(schedlib.RaceLogPrefix() + ".*")
+		for _, f := range old {
+			os.Remove(f)
+		}
+		rp := pool.New(pool.Options{CPUsPerWorker: 2, JobTimeout: 300 * time.Second, ExtraEnv: schedlib.RaceEnv()})
+		st := schedx.Explore(cfg, rep, rp, progs, 0, 0, map[string]int{})
+		races := schedlib.CollectRaces()
+		path := schedlib.WriteRaceFile(cfg.Out, "C09", n, int(st.Executions), races)
+		fmt.Printf("C09 race pass: %d programs x 25 free-running repetitions under -race, %d distinct data race(s) -> %s\n", n, len(races), path)
+		for _, r := range races {
+			fmt.Printf("  RACE (diagnostic) x%d: %s\n", r.Count, r.Key)
+		}
+		return
+	}
 	mk := func(starts, writers []string, sets [][]string, getEvery int) []any {
 		var out []any
 		for _, start := range starts {
@@ -473,6 +538,7 @@ func master(cfg *harness.Config, rep *harness.Report) {
 		}
 	}
 	rep.Set("phases", phaseInfo)
+	rep.Set("races", schedlib.LoadRaceSummary(cfg.Out, "C09"))
 	rep.States = int64(rep.OutcomeCount())
 	rep.Set("executions", st.Executions)
 	rep.Set("preemption_bound_completed", bound)
